@@ -39,7 +39,7 @@ theorem no_selection_panic (used : List BlobH) (idx : List PB) (st : Stats) :
 theorem missing_blob_aborts (used : List BlobH) (idx : List PB) (st : Stats) (b : BlobH) (hb : b ∈ used)
     (hmiss : ∀ pb ∈ idx, pb.e.blob ≠ b) : packInfoFromIndex used idx st = .error .indexIncomplete := by
   unfold packInfoFromIndex
-  have : (used.any fun b => countPass used idx b == some 0) = true := by
+  have : (used.any fun b => (countPass used idx).f b == some 0) = true := by
     rw [List.any_eq_true]
     refine ⟨b, hb, ?_⟩
     rw [countPass_eq]
